@@ -16,6 +16,7 @@ func init() {
 		ID: "C13",
 		Explanation: "Decides: R1 ordered scan — Group.ServeHTTP ranges ascending over the router list, the accepting router's serveContext runs and the function returns (no later router is tried), Add appends at the end; R2 after a rejection every path to the next matcher / to the not-found call resets the context and restores the request path from the value saved before that matcher ran; R3 the built-in version matchers write to the request or the context only on paths that return true; R4 the not-found call uses the group's (wrapped) not-found handler, Add refuses duplicate names before appending; R5 Add stores the given matcher into the router on every returning path, Use wraps the group's not-found handler on every path; R6 (= C07.R3d/e) the pooled context is released once and not used afterwards; R10 AndMatcher / OrMatcher are evaluated symbolically: all / any members, each asked with the request and the context of the call, and the *Func variants forward to the combinator of the same name. " +
 			"R15 (= C01.R1) the route search deletes only what it wrote: a matcher's parameter survives. " +
+			"R16 (= C07.R14) Group.Routers returns a copy of the dispatch order. " +
 			"Not decided: semantics of user-supplied matchers.",
 		Assumptions: commonAssumptions,
 		Run: func(c *Ctx) {
@@ -34,6 +35,7 @@ func init() {
 			ruleParamWriters(c, "R13")
 			ruleCallersSlicesAreNotRetained(c, "R14", "Matcher")
 			ruleBacktrackUndo(c, "R15")
+			ruleAccessorsHandOutCopies(c, "R16")
 		},
 	})
 	register(&Spec{
